@@ -274,7 +274,8 @@ def supervise(pid, tier, seed):
         else:
             real.append(v)
     replays = []
-    rdir = os.path.join(VERIF, "replays", pid)
+    outroot = os.environ.get("VERIF_OUT", VERIF)
+    rdir = os.path.join(outroot, "replays", pid)
     for i, v in enumerate(real[:20]):
         os.makedirs(rdir, exist_ok=True)
         path = os.path.join(rdir, "%s-s%s-i%s-%d.json" % (v["kind"], seed, (v.get("case") or {}).get("index"), i))
@@ -302,8 +303,8 @@ def supervise(pid, tier, seed):
     ev = {"property_id": pid, "tier": tier, "seed": seed, "level": consts["LEVEL"], "coverage": coverage,
           "assumptions": consts.get("ASSUMPTIONS", []), "wall_s": round(time.time() - t0, 2),
           "violations": len(real), "verdict": "violated" if real else ("inconclusive" if inconclusive else "held")}
-    os.makedirs(os.path.join(VERIF, "evidence"), exist_ok=True)
-    with open(os.path.join(VERIF, "evidence", pid + ".json"), "w") as f:
+    os.makedirs(os.path.join(outroot, "evidence"), exist_ok=True)
+    with open(os.path.join(outroot, "evidence", pid + ".json"), "w") as f:
         json.dump(ev, f, indent=1, default=str)
     # clean run dir
     for fn in os.listdir(rundir):
